@@ -11,16 +11,25 @@
 #include <signal.h>
 #include <time.h>
 #include <limits.h>
+#include <atomic>
+#include <thread>
 
 #include "xtl/xsystem.hpp"
 #include "xtl/xplatform.hpp"
+
+#if defined(__SANITIZE_THREAD__)
+extern "C" __attribute__((used, visibility("default"))) const char* __tsan_default_options()
+{
+    return "exitcode=77:halt_on_error=1:report_signal_unsafe=0";
+}
+#endif
 
 namespace sim
 {
     const char* const harness_name = "sysenv";
     const bool caller_threads_enabled = false;
-    enum Op { OP_EXE = 0, OP_PREFIX, OP_ENDIAN, OP_COUNT };
-    const char* const op_names[] = {"exe_path", "prefix_path", "endianness"};
+    enum Op { OP_EXE = 0, OP_PREFIX, OP_ENDIAN, OP_CONCURRENT, OP_COUNT };
+    const char* const op_names[] = {"exe_path", "prefix_path", "endianness", "concurrent_callers"};
     const int op_count = OP_COUNT;
     const char* const fault_names[] = {"none", "throw", "alloc", "stream", "syscall", nullptr};
     bool workload_admits(const std::string&, const std::string&) { return true; }
@@ -37,15 +46,21 @@ namespace
         bool active = false;
         std::string target;      // what /proc/self/exe points to
         int err = 0;             // != 0: readlink fails with this errno
-        unsigned calls = 0;
-        size_t last_bufsiz = 0;
-        bool truncated = false, filled = false;
+        // written by the wrapper, which concurrent callers enter at the same time (OP_CONCURRENT): atomics, so that the
+        // only shared plain memory between the callers is whatever the code under test shares
+        std::atomic<unsigned> calls{0};
+        std::atomic<size_t> last_bufsiz{0};
+        std::atomic<bool> truncated{false}, filled{false};
+        void reset(const std::string& t, int e) { active = false; target = t; err = e; calls = 0; last_bufsiz = 0; truncated = false; filled = false; }
     };
     Env g_env;
 
     const int k_errnos[] = {ENOENT, EACCES, EIO, ENAMETOOLONG};
     // errno is part of the environment too: whatever an earlier, unrelated call left there must not matter
-    const int k_stale_errnos[] = {0, EINTR, EAGAIN, ENOENT, ERANGE, ENOMEM, EINVAL, EINTR};
+    // (every value readlink itself may have left there on an earlier, failed call is among them)
+    const int k_stale_errnos[] = {0, EINTR, EAGAIN, ENOENT, ERANGE, ENOMEM, EINVAL, EINTR, ENAMETOOLONG, EACCES, EIO, ELOOP,
+                                  ENOTDIR, EFAULT, EBADF, EEXIST, EPERM, ENOSPC, EOVERFLOW, EDOM, EILSEQ, ETIMEDOUT, ENOSYS, EMFILE};
+    const size_t k_stale_count = sizeof(k_stale_errnos) / sizeof(k_stale_errnos[0]);
 }
 
 extern "C" ssize_t __real_readlink(const char* path, char* buf, size_t bufsiz);
@@ -110,6 +125,22 @@ namespace
                 for (char& ch : comp) if (ch == '/') ch = '_';
             }
             if (comp == "." || comp == "..") comp[0] = '_';      // a canonical path has no such component
+            // one component in eight begins with a directory of a conventional name: the component is split into
+            // "<name>/<rest>", so the total length stays as drawn and the depth grows by one.  Such a directory may sit
+            // anywhere - as the program's parent (<prefix>/bin/prog), higher up (/opt/bin/tools/prog), or twice.
+            if (r.chance(1, 8))
+            {
+                static const char* const names[] = {"bin", "sbin", "lib", "lib64", "usr", "local", "opt", "share", "libexec", "build", "src", "home", "tmp", "etc", "Program Files", "bin32", "Bin"};
+                std::string nm = names[r.below(sizeof(names) / sizeof(names[0]))];
+                if (comp.size() >= nm.size() + 2)
+                {
+                    std::string rest = comp.substr(nm.size() + 1);
+                    if (rest == "." || rest == "..") rest[0] = '_';
+                    out += nm; out.push_back('/');
+                    comps.push_back(nm);
+                    comp = rest;
+                }
+            }
             out += comp;
             comps.push_back(comp);
             remaining -= cl;
@@ -174,9 +205,7 @@ namespace
             std::vector<std::string> comps;
             std::string target = make_path(len, st.b, st.c, comps);
             bool fault = st.fkind == FK_SYSCALL;
-            g_env = Env();
-            g_env.target = target;
-            g_env.err = fault ? k_errnos[st.fk % 4] : 0;
+            g_env.reset(target, fault ? k_errnos[st.fk % 4] : 0);
             run.abstract(mix(st.op, strhash(lc), fault ? 1 + st.fk % 4 : 0));
             ++run.changing;
             std::string opn = op_name(st.op);
@@ -190,9 +219,55 @@ namespace
                 run.dig(static_cast<uint64_t>(got));
                 continue;
             }
+            if (st.op == OP_CONCURRENT)
+            {
+                // Three callers at once.  Both functions return their result by value and document no restriction, so a
+                // program may ask for its path from several threads.  In the ThreadSanitizer build the callers really
+                // overlap and share no happens-before edge between release and join: state the code under test shares
+                // between calls (a static buffer) is a reported race whatever the kernel's schedule.  In the other builds
+                // the same calls are made one after the other (a race there would be a schedule-dependent wrong value,
+                // which cannot be replayed) and only the values are judged.
+                const std::string want_prefix = model_prefix(comps);
+                std::string got[3][2], err[3];
+                g_env.active = true;
+                auto body = [&](int t)
+                {
+                    errno = k_stale_errnos[(st.d + 5u * static_cast<unsigned>(t)) % k_stale_count];
+                    try { for (int k = 0; k < 2; ++k) got[t][k] = ((t + k) & 1) ? xtl::prefix_path() : xtl::executable_path(); }
+                    catch (const std::exception& e) { err[t] = std::string("threw ") + e.what(); }
+                };
+#if defined(__SANITIZE_THREAD__)
+                {
+                    std::atomic<int> go{0};
+                    std::thread th[3];
+                    for (int t = 0; t < 3; ++t) th[t] = std::thread([&, t] { while (!go.load(std::memory_order_relaxed)) std::this_thread::yield(); body(t); });
+                    go.store(1, std::memory_order_relaxed);
+                    for (int t = 0; t < 3; ++t) th[t].join();
+                }
+                SIM_PROBE("three_callers_at_once_under_tsan");
+#else
+                for (int t = 0; t < 3; ++t) body(t);
+                SIM_PROBE("three_callers_one_after_the_other");
+#endif
+                g_env.active = false;
+                for (int t = 0; t < 3; ++t)
+                {
+                    if (!err[t].empty()) fail("exception", std::string("C20/exception/concurrent_callers/") + lc, err[t]);
+                    for (int k = 0; k < 2; ++k)
+                    {
+                        bool pre = ((t + k) & 1) != 0;
+                        if (got[t][k] != (pre ? want_prefix : target))
+                            fail("model", std::string("C20/ret/concurrent_callers/") + (pre ? "prefix_path/" : "exe_path/") + lc,
+                                 "caller " + std::to_string(t) + " got " + std::to_string(got[t][k].size()) + " bytes that are not the simulated " + (pre ? "prefix" : "target"));
+                        run.dig(got[t][k]);
+                    }
+                }
+                continue;
+            }
             dirty_stack(mix(plan.seed, run.step, 7));
-            errno = k_stale_errnos[st.d % 8];
+            errno = k_stale_errnos[st.d % k_stale_count];
             if (errno == EINTR) SIM_PROBE("stale_EINTR_in_errno_before_the_call");
+            if (errno == ENAMETOOLONG || errno == EACCES || errno == EIO) SIM_PROBE("stale_errno_is_one_readlink_could_have_left");
             g_env.active = true;
             std::string got;
             try
@@ -368,10 +443,11 @@ namespace
         {
             Step s;
             unsigned o = static_cast<unsigned>(pr.below(10));
-            s.op = o < 5 ? OP_EXE : (o < 9 ? OP_PREFIX : OP_ENDIAN);
+            s.op = o < 4 ? OP_EXE : (o < 8 ? OP_PREFIX : (o < 9 ? OP_CONCURRENT : OP_ENDIAN));
+            if (s.op == OP_ENDIAN && pr.below(3) != 0) s.op = OP_CONCURRENT;
             s.a = ta; s.b = tb; s.c = tc;
             s.d = pr.next() >> 44;
-            if (s.op != OP_ENDIAN && pr.below(100) < fault_pct) { s.fkind = FK_SYSCALL; s.fk = pr.below(4); }
+            if (s.op != OP_ENDIAN && s.op != OP_CONCURRENT && pr.below(100) < fault_pct) { s.fkind = FK_SYSCALL; s.fk = pr.below(4); }
             plan.steps.push_back(s);
         }
     }
